@@ -15,9 +15,9 @@ except Exception:  # pragma: no cover
 STATE_LABELINGS = {
     'int': lambda i: i,
     'rev': lambda i: 9 - i,                        # sorted order is the reverse of spec order
-    'str': lambda i: 'zyxwvuts'[i],                # sortable, reversed
-    'tup': lambda i: [(1, 0), (0, 1), (0, 0), (1, 1), (2, 0), (0, 2), (2, 1), (1, 2)][i],
-    'mix': lambda i: [0, 'b', (1, 2), None, 'e', (3,), 2.5, frozenset({7})][i],    # not sortable
+    'str': lambda i: 'zyxwvutsrqpo'[i],                # sortable, reversed
+    'tup': lambda i: [(1, 0), (0, 1), (0, 0), (1, 1), (2, 0), (0, 2), (2, 1), (1, 2), (3, 0), (0, 3), (3, 1), (1, 3)][i],
+    'mix': lambda i: [0, 'b', (1, 2), None, 'e', (3,), 2.5, frozenset({7}), 'i', (9,), 10.5, 'l'][i],    # not sortable
     'fd': (lambda i: frozendict({'x': i // 2, 'y': i % 2})) if frozendict else (lambda i: ('fd', i)),
     'strfwd': lambda i: 'state%d' % i,
     'falsy': lambda i: [0, '', (), False, 0.5, 'x', 7, 8][i] if i < 3 else ('s', i),   # falsy state objects (False == 0 avoided)
